@@ -129,6 +129,9 @@ def replay(payload):
                     parts += float(e.gse_emissions[s])
                 if s == Species.CO2:
                     parts += float(e.lifecycle_co2 or 0.0)
+                if s not in e.total_emissions:
+                    problems.append(dict(options=opts, outcome=f'{s.name}: no total reported (parts sum to {parts})'))
+                    continue
                 tot = float(e.total_emissions[s])
                 if not np.isfinite(tot) or tot < -1e-9 or abs(tot - parts) > 1e-6 * max(1.0, abs(parts)):
                     problems.append(dict(options=opts, outcome=f'{s.name}: total {tot} but parts sum to {parts}'))
